@@ -555,7 +555,9 @@ def exprs(scale):
     cmpC = st.one_of(
         st.builds(lambda op, l, r: {"t": "cmp", "op": op, "l": l, "r": r}, st.sampled_from(CMP), C, st.one_of(C, P, sc)),
         st.builds(lambda op, l, r: {"t": "cmp", "op": op, "l": l, "r": r}, st.sampled_from(["<", ">="]), sc, C))
-    return st.one_of(P, C, P, C, levels[1][0], levels[1][1], cmpP, cmpC)
+    # the usual idiom for inverting a mask: scalar - (comparison); numpy defines it for boolean arrays
+    inv = st.builds(lambda v, m: {"t": "binop", "op": "-", "l": {"t": "scalar", "v": v}, "r": m}, st.sampled_from([1, 1.0, 2.0]), st.one_of(cmpP, cmpC))
+    return st.one_of(P, C, P, C, levels[1][0], levels[1][1], cmpP, cmpC, inv)
 
 
 @st.composite
